@@ -174,4 +174,12 @@ example : ((VBus.new .k48 (fun _ => 0xFF)).device 0x00FE 0x12).ulaWrites = [(0, 
 /-- the reported colour of a history is that of its last byte -/
 example : Spec.reportedColour [0x07, 0x12] = some 2 ∧ Spec.reportedColour [] = none := by decide
 
+/-- the bus at work (kernel evaluation of one `emulate`): `OUT (0xFE),A` at 0x8000 with A = 2 on the
+48K — `set_border` is called at frame clock 8 (4-T fetch, 3-T operand read, first I/O T-state) with
+colour 2, which is then the reported colour; the instruction ends at T 11 -/
+example : let z := (Z80.run .hw 1 ({ pc := 0x8000, a := 0x02 },
+      ((VBus.new .k48 (fun _ => 0xFF)).store 0x8000 0xD3).store 0x8001 0xFE)).2
+    z.ulaWrites = [(8, 2)] ∧ z.ulaHist = [0x02] ∧ z.ctl.borderColor = 2 ∧ z.ctl.frameClocks = 11 := by
+  decide +kernel
+
 end ZxVerif.C09Sys
